@@ -672,14 +672,15 @@ func (u *Unit) specCall(x *ast.CallExpr, env *Env, sc *specCtx) Value {
 		if r.Sort != SRef {
 			unsup("fresh() of sort %s", r.Sort)
 		}
-		return Value{le(sc.clockBase, u.birth(r)), boolT}
+		// allocated during this activation (not before its entry, and by now)
+		return Value{And(le(sc.clockBase, u.birth(r)), lt(u.birth(r), env.clock)), boolT}
 	case "freshOrNil":
 		v := u.sv(x.Args[0], env, sc)
 		r := v.Term
 		if v.Sort == SSlice {
 			r = sBase(v.Term)
 		}
-		return Value{Or(Same(r, Term{"nil_Ref", SRef}), le(sc.clockBase, u.birth(r))), boolT}
+		return Value{Or(Same(r, Term{"nil_Ref", SRef}), And(le(sc.clockBase, u.birth(r)), lt(u.birth(r), env.clock))), boolT}
 	case "has":
 		m := u.sv(x.Args[0], env, sc)
 		k := u.sv(x.Args[1], env, sc)
@@ -898,6 +899,11 @@ func (u *Unit) specCall(x *ast.CallExpr, env *Env, sc *specCtx) Value {
 		u.D.Fun("hdr_added", SSlice, SSlice, SStr)
 		a, b := u.sv(x.Args[0], env, sc), u.sv(x.Args[1], env, sc)
 		return Value{App("hdr_added", SSlice, a.Term, b.Term), types.NewSlice(types.Typ[types.String])}
+	case "chancap":
+		// capacity of a channel
+		u.D.Fun("chan_cap", SInt, SRef)
+		a := u.sv(x.Args[0], env, sc)
+		return Value{App("chan_cap", SInt, a.Term), intT}
 	case "regexMatch":
 		// the library's regexp.MatchString as an uninterpreted pair (matches, error)
 		u.D.Fun("regex_match", SBool, SStr, SStr)
